@@ -642,6 +642,48 @@ macro_rules! ep_body {
     };
 }
 
+// custom error types: two different ones share their short name (`Error`); a request the
+// framework refuses (a missing required parameter) is answered in the endpoint's own error
+// type, which is what the document's 4XX response of that operation must describe
+macro_rules! custom_error {
+    ($m:ident, $field:ident, $fty:ty, $val:expr) => {
+        mod $m {
+            use super::*;
+            #[derive(Debug, Serialize, JsonSchema)]
+            pub struct Error {
+                pub message: String,
+                pub $field: $fty,
+            }
+            impl dropshot::HttpResponseError for Error {
+                fn status_code(&self) -> dropshot::ErrorStatusCode {
+                    dropshot::ErrorStatusCode::BAD_REQUEST
+                }
+            }
+            impl From<HttpError> for Error {
+                fn from(e: HttpError) -> Self {
+                    Error { message: e.external_message, $field: $val }
+                }
+            }
+            impl std::fmt::Display for Error {
+                fn fmt(&self, f: &mut std::fmt::Formatter<'_>) -> std::fmt::Result {
+                    write!(f, "{}", self.message)
+                }
+            }
+        }
+    };
+}
+custom_error!(disks, disk_state, String, "detached".to_string());
+custom_error!(inst, code, u32, 17);
+
+#[endpoint { method = GET, path = "/ce/disks" }]
+async fn ce_disks(_rq: Ctx, q: Query<QReq>) -> Result<HttpResponseOk<QReq>, disks::Error> {
+    Ok(HttpResponseOk(q.into_inner()))
+}
+#[endpoint { method = GET, path = "/ce/inst" }]
+async fn ce_inst(_rq: Ctx, q: Query<QReq>) -> Result<HttpResponseOk<QReq>, inst::Error> {
+    Ok(HttpResponseOk(q.into_inner()))
+}
+
 // response types (HttpResponseOk)
 ep_sample!(ra_bool, "/ra/bool", bool);
 ep_sample!(ra_u8, "/ra/u8", u8);
@@ -972,6 +1014,8 @@ fn build_api() -> (ApiDescription<()>, Vec<Ep>) {
     reg_path!(p_bool, "/p/bool/{flag}", PBool);
     reg_path!(p_flat, "/p/flat/{a}/{b}", PFlat);
     reg_query!(q_req, "/q/req", QReq);
+    reg_query!(ce_disks, "/ce/disks", QReq);
+    reg_query!(ce_inst, "/ce/inst", QReq);
     reg_query!(q_opt, "/q/opt", QOpt);
     reg_query!(q_dflt, "/q/dflt", QDflt);
     reg_query!(q_rename, "/q/rename", Renamed);
